@@ -154,6 +154,14 @@ func scratchDir(verif string) string {
 		home, _ := os.UserHomeDir()
 		base = filepath.Join(home, ".cache", "verif-scratch")
 	}
+	// scratch directories of runs that were killed are swept when they are older than two hours
+	if es, err := os.ReadDir(base); err == nil {
+		for _, e := range es {
+			if fi, err := e.Info(); err == nil && time.Since(fi.ModTime()) > 2*time.Hour {
+				os.RemoveAll(filepath.Join(base, e.Name()))
+			}
+		}
+	}
 	d := filepath.Join(base, fmt.Sprintf("run%d", os.Getpid()))
 	os.MkdirAll(d, 0755)
 	return d
